@@ -649,7 +649,7 @@ class VPipeWriter:
             raise ValueError("write to closed file")
         if p.rclosed:
             raise BrokenPipeError(32, "Broken pipe")
-        if p.cut_at is not None and p.total + len(data) > p.cut_at:
+        if p.cut_at is not None and p.total + len(data) >= p.cut_at:
             keep = p.cut_at - p.total
             part = data[:keep]
             p.buf += part
@@ -796,6 +796,9 @@ class VPopen:
         pin.wproc, pin.rproc = parent, proc
         pout.wproc, pout.rproc = proc, parent
         proc.pin, proc.pout = pin, pout
+        hook = w.opts.get("popen_hook")
+        if hook is not None:
+            hook(proc)
         self.stdin = pin.w_end
         self.stdout = pout.r
         parent.fds += [pin.w_end, pout.r]
